@@ -93,11 +93,16 @@ def eval_dict(cfg, task="detection"):
         "matching_label_policy": cfg["policy"],
         "min_point_numbers": list(mf["minPts"]) if mf["minPts"] else [0] * n,
     }
+    def scalar_or_list(vals):
+        # documented as a float; per-label lists are accepted too -- use the scalar form when the list is uniform
+        vals = [b / 2.0 for b in vals]
+        return vals[0] if len(set(vals)) == 1 else vals
+
     if mf["xmax"]:
-        d["max_x_position"] = [b / 2.0 for b in mf["xmax"]]
-        d["max_y_position"] = [b / 2.0 for b in mf["ymax"]]
+        d["max_x_position"] = scalar_or_list(mf["xmax"])
+        d["max_y_position"] = scalar_or_list(mf["ymax"])
     else:
-        d["max_distance"] = [b / 2.0 for b in mf["dmax"]]
+        d["max_distance"] = scalar_or_list(mf["dmax"])
         d["min_distance"] = mf["dmin"][0] / 2.0
     if cfg["radius"]:
         d["max_matchable_radii"] = [a / b for a, b in cfg["radius"]]
